@@ -79,6 +79,8 @@ class ItemSpec:
         self.attrs = []
         self.spec = None      # (text, line)
         self.ats = []         # (side, nth, anchor, text, line)
+        self.dropfields = []
+        self.raw = None       # (text, line) for @raw blocks
 
 
 def parse_overlay(path):
@@ -95,6 +97,8 @@ def parse_overlay(path):
         text = '\n'.join(lines)
         if kind == 'spec':
             cur.spec = (text, ln)
+        elif kind == 'raw':
+            cur.raw = (text, ln)
         else:
             side, nth, anchor = payload
             cur.ats.append((side, nth, anchor, text, ln))
@@ -122,6 +126,13 @@ def parse_overlay(path):
                     cur.assume = True
                 elif d == 'attr':
                     cur.attrs.append(arg)
+                elif d == 'dropfield':
+                    cur.dropfields += arg.split()
+                elif d == 'raw':
+                    cur = ItemSpec(path, n)
+                    cur.file, cur.module = curfile, curmod
+                    items.append(cur)
+                    block = ('raw', None, [], n + 1)
                 elif d == 'spec':
                     block = ('spec', None, [], n + 1)
                 elif d == 'at':
@@ -202,6 +213,10 @@ def source(relpath):
     return _sf_cache[p]
 
 
+def msk_item_all(sf, it):
+    return sf.msk[it.start:it.end]
+
+
 def clause_tags(text, default):
     m = re.search(r'//\s*\[([A-Z0-9 ,]+)\]\s*$', text)
     if m:
@@ -227,14 +242,57 @@ def splice_item(asm, spec, probe=False):
             # region of code... doc comments are comments in the mask; attrs
             # are code.  Both are safe to drop by regex at line starts.
             dels.append((m.start(), m.end(), name))
+    for fname in spec.dropfields:
+        if it.kind != 'struct' or it.body_open is None:
+            raise Unsupported('@dropfield on a non-struct item %s' % spec.selector)
+        bo = it.body_open - base
+        bc = it.body_close - base
+        mfield = None
+        for m in re.finditer(r'(?m)^[ \t]*(pub(\([^)]*\))?[ \t]+)?%s[ \t]*:' % re.escape(fname), msk_item_all(sf, it)):
+            if bo < m.start() < bc:
+                mfield = m
+                break
+        if mfield is None:
+            raise LostAnchor('%s: field %s not found' % (spec.selector, fname))
+        # extend to the ',' that ends the field at depth 1
+        msk_it = msk_item_all(sf, it)
+        k = mfield.end()
+        depth = 0
+        while k < bc:
+            c = msk_it[k]
+            if c in '([{<':
+                depth += 1
+            elif c in ')]}>':
+                depth -= 1
+            elif c == ',' and depth == 0:
+                k += 1
+                break
+            k += 1
+        # swallow the rest of the line
+        while k < bc and item_src[k] in ' \t':
+            k += 1
+        if k < bc and item_src[k] == '\n':
+            k += 1
+        # and the attached doc comments / attributes above the field
+        a = mfield.start()
+        while True:
+            prev_nl = item_src.rfind('\n', 0, a - 1)
+            line = item_src[prev_nl + 1:a]
+            st = line.strip()
+            if st.startswith('///') or st.startswith('#['):
+                a = prev_nl + 1
+            else:
+                break
+        dels.append((a, k, 'field:' + fname))
     dels.sort()
     # remove overlaps
     clean = []
-    last = -1
-    for a, b, nme in dels:
-        if a >= last:
-            clean.append((a, b, nme))
-            last = b
+    for a, b, nme in sorted(dels, key=lambda d: (d[0], -(d[1] - d[0]))):
+        if clean and a < clean[-1][1]:
+            if b <= clean[-1][1]:
+                continue        # contained in the previous span
+            raise Unsupported('overlapping dropped spans in %s' % spec.selector)
+        clean.append((a, b, nme))
     dels = clean
     # --- insertions: list of (pos relative to item text, order, text, ovline, tags, kind)
     ins = []
@@ -431,6 +489,11 @@ def assemble(unit_dir, out_path, probe=False):
                 asm.add('pub mod %s {\nuse vstd::prelude::*;\nuse crate::*;\n' % e[1], ('gen',))
                 emit(n.children[e[1]], depth + 1)
                 asm.add('} // mod %s\n' % e[1], ('gen',))
+            elif e[1].raw is not None:
+                close_container()
+                text, ln = e[1].raw
+                for k, l in enumerate(text.split('\n')):
+                    asm.add(l + '\n', ('ov', e[1].ovpath, ln + k, []))
             else:
                 sp = e[1]
                 sf = source(sp.file)
